@@ -86,6 +86,60 @@ def rules(ctx, db):
             fl = [bb for bb, t in calls(f, r"AsyncWriteExt::flush$|::flush$")]
             ctx.ob("R2", "flush-right-after-handshake", bool(fh) and bool(fl) and any(f.cfg.dominates(fh[0], b) for b in fl),
                    "finish_handshake() is followed by an explicit flush of the deferred data", f)
+        # ---------------- R4: close = protocol shutdown, then the transport flushed, on every path to Ready(Ok)
+        R("R4", "MPT", "native TLS close: the shutdown alert is followed by a flush of the transport, and Ready(Ok) is reported "
+          "only from that flush (SSL_shutdown ignores the result of flushing its BIO, so a pending transport flush would "
+          "otherwise strand close_notify in the transport's buffer)")
+        pc = db.methods(self_adt=r"^compio_tls::compat::native::TlsStream$", name="poll_close", trait=r"AsyncWrite$")
+        if any(f.id.startswith("compio_tls::compat::native::") for f in db.fns.values()) and not pc:
+            ctx.missing("R4", "native TlsStream::poll_close")
+        for f in pc:
+            wcs = calls(f, r"native::TlsStream::<S>::with_context$")
+            sh, fl = [], []
+            for bb, t in wcs:
+                for a in t["args"]:
+                    pl = op_place(a)
+                    if pl is None:
+                        continue
+                    for d in f.cfg.defs.get(pl["l"], []):
+                        if d[0] == "assign" and d[3]["r"].get("k") == "agg" and d[3]["r"].get("x") == "closure":
+                            g = db.fns.get(d[3]["r"]["def"])
+                            if g is None:
+                                continue
+                            if calls(g, r"native_tls::TlsStream::<S>::shutdown$"):
+                                sh.append(bb)
+                            if calls(g, r"std::io::Write::flush$") and calls(g, r"native_tls::TlsStream::<S>::get_mut$"):
+                                fl.append((bb, t))
+            ok = bool(sh) and bool(fl)
+            detail = "shutdown and a transport flush are both issued through with_context"
+            if ok:
+                # every definition of the return place is the flush's result, Poll::Pending, or a propagated error
+                for d in f.cfg.defs.get(0, []):
+                    if d[0] == "call":
+                        t = d[2]
+                        if any(t is ft for _, ft in fl) or call_matches(t, r"FromResidual.*::from_residual$"):
+                            continue
+                        ok = False
+                        detail = "the result of poll_close is also produced by " + (t.get("fn") or "?")
+                    elif d[0] == "assign":
+                        r = d[3]["r"]
+                        if r.get("k") == "agg" and r.get("var") == "Pending":
+                            continue
+                        ok = False
+                        detail = "poll_close builds a result (e.g. Ready) that does not come from the transport flush"
+            else:
+                detail = "poll_close does not flush the transport after native_tls shutdown()"
+            ctx.ob("R4", "close-flushes-transport", ok, detail, f)
+            # a re-polled close must not run SSL_shutdown a second time (that would wait for the peer's close_notify and
+            # never retry the flush): the shutdown call is guarded by a flag that is set after it succeeded
+            guarded = False
+            for s_ in sh:
+                for bi, b in enumerate(f.blocks):
+                    t = b["t"]
+                    if t["k"] == "switch" and t.get("oty") == "bool" and any(f.cfg.edge_dominates(bi, tgt, s_) for _, tgt in t["tg"]):
+                        guarded = True
+            ctx.ob("R4", "shutdown-not-repeated", guarded or not sh,
+                   "the SSL shutdown call is skipped on a re-poll once it succeeded (a second SSL_shutdown would wait for the peer)", f)
         # ---------------- R3
         wc = db.methods(self_adt=r"^compio_tls::compat::common::AllowStd$", name="with_context", trait="")
         if not wc:
